@@ -132,6 +132,9 @@ pub struct SimState {
     pub reads: u64,
     pub searches: Vec<SearchRecord>,
     pub max_nodes_per_search: u64,
+    /// nodes entered since the engine was last handed control (a command read or a direct
+    /// call): bounds work done outside any timed search as well (cap: 2x max_nodes_per_search)
+    pub nodes_in_call: u64,
     pub max_nodes_after_deadline: u64,
     pub max_reads_per_search: u64,
     /// abort a clock-limited search that enters more nodes than this between two clock reads
@@ -180,6 +183,7 @@ impl SimState {
             reads: 0,
             searches: vec![],
             max_nodes_per_search: 20_000_000,
+            nodes_in_call: 0,
             max_nodes_after_deadline: u64::MAX,
             max_reads_per_search: 400_000_000,
             max_poll_gap: u64::MAX,
@@ -363,6 +367,7 @@ impl Sim for World {
     fn read(&mut self, buf: &mut [u8]) -> std::io::Result<usize> {
         let mut st = self.st.borrow_mut();
         st.call_boundary = true;
+        st.nodes_in_call = 0;
         if st.input.is_empty() {
             if let Some(g) = self.gui.as_mut() {
                 g(&mut st);
@@ -439,6 +444,12 @@ impl Sim for World {
         let mut st = self.st.borrow_mut();
         let cost = st.clock.cost_node_ns;
         st.now_ns += cost;
+        st.nodes_in_call += 1;
+        if st.nodes_in_call > st.max_nodes_per_search.saturating_mul(2) {
+            st.ev("abort node_cap_in_call");
+            drop(st);
+            std::panic::panic_any(Abort::NodeCap);
+        }
         st.check_deadline();
         let base = st.stack_base;
         let lim = st.stack_limit;
@@ -586,6 +597,39 @@ impl Sim for World {
     }
 }
 
+/// Engine calls in progress, for the hang watchdog: (thread, sim index, since when).
+pub static ENGINE_CALLS: std::sync::Mutex<Vec<(std::thread::ThreadId, u64, std::time::Instant)>> = std::sync::Mutex::new(Vec::new());
+
+thread_local! {
+    /// sim index of the batch this thread is working on (set by the batch runner)
+    pub static CURRENT_SIM: std::cell::Cell<u64> = std::cell::Cell::new(u64::MAX);
+}
+
+struct EngineCallGuard(bool);
+
+impl EngineCallGuard {
+    fn enter() -> EngineCallGuard {
+        let id = std::thread::current().id();
+        let mut g = ENGINE_CALLS.lock().unwrap_or_else(|e| e.into_inner());
+        // nested calls (a reference computation inside a session) keep the outer entry
+        if g.iter().any(|e| e.0 == id) {
+            return EngineCallGuard(false);
+        }
+        g.push((id, CURRENT_SIM.with(|c| c.get()), std::time::Instant::now()));
+        EngineCallGuard(true)
+    }
+}
+
+impl Drop for EngineCallGuard {
+    fn drop(&mut self) {
+        if self.0 {
+            let id = std::thread::current().id();
+            let mut g = ENGINE_CALLS.lock().unwrap_or_else(|e| e.into_inner());
+            g.retain(|e| e.0 != id);
+        }
+    }
+}
+
 thread_local! {
     static IN_SIM: std::cell::Cell<bool> = std::cell::Cell::new(false);
     static LAST_PANIC: RefCell<Option<String>> = RefCell::new(None);
@@ -651,7 +695,12 @@ impl Proc {
 
     /// Runs engine code inside the simulated process and classifies how it ended.
     pub fn run<R>(&self, f: impl FnOnce() -> R) -> (Outcome, Option<R>) {
-        self.st.borrow_mut().call_boundary = true;
+        {
+            let mut st = self.st.borrow_mut();
+            st.call_boundary = true;
+            st.nodes_in_call = 0;
+        }
+        let _guard = EngineCallGuard::enter();
         let was_in_sim = IN_SIM.with(|c| c.replace(true));
         LAST_PANIC.with(|p| *p.borrow_mut() = None);
         let r = catch_unwind(AssertUnwindSafe(f));
